@@ -104,7 +104,8 @@ the conditional, member access, array subscript and calls (without template argu
 expression, are read by the parser model at the top level (`expr_p15`, terminator `Standard`) as exactly the tree.
 
 Partial, because `WF` excludes literals that do not print as one token reading back as themselves (negative values,
-`-0.0`, NaN, … — `LitOk`) — for those the full statement is false on the real code (known findings). Casts, `sizeof`, template
+`-0.0`, NaN, … — `LitOk`, see `literal_roundtrip_partial` / `negative_literals_break`) — for those the full statement is
+false on the real code (known findings). Casts, `sizeof`, template
 arguments and braced initialisers are not in the model at all (so neither is `expr_p1_call`'s attempt to read
 `<…>(` as template arguments, which breaks `a < b > (c)` on the real code — a known finding). -/
 theorem roundtrip_expr_partial (e : Expr) (hwf : WF e) (rest : List Tok) (hrest : Stops rest) :
@@ -130,18 +131,73 @@ theorem roundtrip_subexpr_partial (e : Expr) (hwf : WF e) (outer : Nat) (side : 
   obtain ⟨N, h⟩ := rts_self (rt e hwf) outer side k term rest hterm hk hpos hno hin
   exact ⟨N, h N (Nat.le_refl _)⟩
 
-/-- non-vacuity: a depth-6 tree (identifier leaves: `LitOk` of a concrete literal is decided by the compiled model —
-literal names are strings, which the kernel does not evaluate — so literal leaves enter the theorem as a hypothesis) mixing eight levels, both associativities, prefix/postfix signs, conditionals, member, subscript and call -/
+/-! ## Literals -/
+
+/-- **literal_roundtrip_partial** (token level). Every non-negative integer literal of every kind and both booleans
+print as one token carrying the same kind and value; so does every non-negative float in the modelled (dyadic) subset.
+What is *not* proved here: that the printed digits are the value (Rust `Display`, trusted) and that the lexer reads
+digits back exactly (C10 `int_value_exact` / `lex_float_nearest`); `decimal_roundtrip` below is the digit-level core. -/
+theorem literal_roundtrip_partial :
+    (∀ v, LitOk ⟨.IntUntyped, false, v⟩ = true ∧ LitOk ⟨.IntUnsigned32, false, v⟩ = true ∧
+          LitOk ⟨.IntUnsigned64, false, v⟩ = true ∧ LitOk ⟨.IntSigned64, false, v⟩ = true) ∧
+    LitOk ⟨.Bool, false, 0⟩ = true ∧ LitOk ⟨.Bool, false, 1⟩ = true ∧
+    (∀ bits q, eighths? 11 52 bits = some q → LitOk ⟨.FloatUntyped, false, bits⟩ = true ∧ LitOk ⟨.Float64, false, bits⟩ = true) ∧
+    (∀ bits q, eighths? 8 23 bits = some q → LitOk ⟨.Float32, false, bits⟩ = true ∧ LitOk ⟨.Float16, false, bits⟩ = true) := by
+  refine ⟨fun v => ⟨?_, ?_, ?_, ?_⟩, ?_, ?_, fun bits q h => ⟨?_, ?_⟩, fun bits q h => ⟨?_, ?_⟩⟩ <;>
+    simp [LitOk, litPieces, floatPieces, *]
+
+/-- **Negation for negative literals, all of them.** A negative 64-bit integer literal and a float literal with the
+sign bit set (other than zero) print as `-` followed by the non-negative literal — two tokens, which the parser reads
+as `UnaryOperation(Minus, …)`; negative zero prints as the token of positive zero. (Real code: known findings.) -/
+theorem negative_literals_break :
+    (∀ v, v ≠ 0 → (litPieces ⟨.IntSigned64, true, v⟩).map toks = some [.p .Minus, .lit ⟨.IntSigned64, false, v⟩]) ∧
+    (∀ bits q, eighths? 8 23 bits = some q → q ≠ 0 →
+      (litPieces ⟨.Float32, true, bits⟩).map toks = some [.p .Minus, .lit ⟨.Float32, false, bits⟩]) ∧
+    (litPieces ⟨.Float32, true, 0⟩).map toks = some [.lit ⟨.Float32, false, 0⟩] ∧
+    LitOk ⟨.IntSigned64, true, 5⟩ = false ∧ LitOk ⟨.Float32, true, 0⟩ = false := by
+  refine ⟨fun v hv => ?_, fun bits q h hq => ?_, ?_, ?_, ?_⟩
+  · simp [litPieces, hv, minusPiece]
+  · simp [litPieces, floatPieces, h, hq, minusPiece]
+  · decide
+  · decide
+  · decide
+
+/-- digits of `n`, least significant first -/
+def decDigits : Nat → Nat → List Nat
+  | 0, _ => []
+  | f + 1, n => if n < 10 then [n] else n % 10 :: decDigits f (n / 10)
+
+def ofDigits : List Nat → Nat
+  | [] => 0
+  | d :: r => d + 10 * ofDigits r
+
+/-- **decimal_roundtrip.** Reading back the decimal digits of a number gives the number (any fuel above the value). -/
+theorem decimal_roundtrip : ∀ f n, n < f → ofDigits (decDigits f n) = n := by
+  intro f
+  induction f with
+  | zero => intro n h; omega
+  | succ f ih =>
+    intro n h
+    unfold decDigits
+    split
+    · simp [ofDigits]
+    · simp only [ofDigits]
+      rw [ih (n / 10) (by omega)]
+      omega
+
+/-- non-vacuity: a depth-6 tree (with literal leaves of four kinds: `LitOk` is decided by the kernel) mixing eight levels, both associativities, prefix/postfix signs, conditionals, member, subscript and call -/
 def sample : Expr :=
   .bin .Assignment (.id "r")
     (.tern (.bin .LessThan (.bin .Add (.id "a") (.bin .Multiply (.id "b") (.un .Minus (.un .Minus (.id "c"))))) (.id "d"))
       (.bin .Subtract (.id "x") (.bin .Subtract (.sub (.mem (.id "y") "m") (.bin .Sequence (.id "i") (.id "j")))
         (.un .PostfixDecrement (.id "z"))))
       (.bin .Sequence (.bin .BitwiseOrAssignment (.id "p") (.id "q"))
-        (.un .LogicalNot (.call (.mem (.id "w") "f") (.cons (.tern (.id "u") (.id "v") (.id "w")) (.cons (.id "k") .nil))))))
+        (.un .LogicalNot (.call (.mem (.id "w") "f") (.cons (.tern (.id "u") (.id "v") (.id "w")) (.cons (.bin .Multiply (.lit ⟨.Float32, false, 0x3fc00000⟩) (.lit ⟨.IntUnsigned64, false, 18446744073709551615⟩))
+          (.cons (.bin .Add (.lit ⟨.IntUntyped, false, 3⟩) (.lit ⟨.Float64, false, 0x4000000000000000⟩)) .nil)))))))
 
 theorem sample_wf : WF sample := by
   simp [sample, WF, WFA]
+  decide
 example : ReadsBack sample [] := roundtrip_expr_partial sample sample_wf [] (Or.inl rfl)
 
 /-- the conditional shape that did not read back before f3b64c8 (`expr_p13` read the middle operand with `expr_p13`) -/
